@@ -134,14 +134,48 @@ def module_info(module):
 
 
 class _IrSem(irsem.IrSem):
-    """loads are simplified eagerly: a local that wasm2ppci keeps in an alloca reads back as the stored term itself
-    (select-over-store with constant addresses, concat of adjacent extracts), so that both executions build
-    structurally equal products / quotients"""
+    """ref/irsem.py plus exact store-to-load forwarding: wasm2ppci keeps every wasm local in an alloca; a load that
+    reads back exactly what the last store to the same constant address wrote returns that term itself (instead of a
+    concat of byte extracts, which z3's simplifier tears apart), so that both executions build structurally equal
+    terms.  A store through a symbolic address drops every forwarded cell it may overlap on the current path."""
+
+    def __init__(self, *a, **k):
+        irsem.IrSem.__init__(self, *a, **k)
+        self.fw = {}
+
+    def store(self, addr, val, nbytes):
+        irsem.IrSem.store(self, addr, val, nbytes)
+        a = z3.simplify(addr)
+        if z3.is_bv_value(a):
+            a = a.as_long()
+            for (b, n) in list(self.fw):
+                if b < a + nbytes and a < b + n:
+                    del self.fw[(b, n)]
+            self.fw[(a, nbytes)] = val
+            return
+        for (b, n) in list(self.fw):
+            hit = z3.And(z3.ULT(a - z3.BitVecVal(b, self.pb) + (nbytes - 1), z3.BitVecVal(n + nbytes - 1, self.pb)))
+            if core.ENG is None:
+                if not z3.is_false(z3.simplify(hit)):
+                    del self.fw[(b, n)]
+            elif core.ENG._check(hit)[0] != "unsat":
+                del self.fw[(b, n)]
 
     def load(self, addr, nbytes):
+        a = z3.simplify(addr)
+        if z3.is_bv_value(a) and (a.as_long(), nbytes) in self.fw:
+            self.ub.append(z3.Not(self._valid(addr, nbytes)))
+            return self.fw[(a.as_long(), nbytes)]
         self.ub.append(z3.Not(self._valid(addr, nbytes)))
         bs = [_wasmrt.resolve_select(self.mem, addr + k) for k in range(nbytes)]
         return z3.simplify(z3.Concat(*reversed(bs))) if nbytes > 1 else bs[0]
+
+    def call(self, func, args, depth=0):
+        r = irsem.IrSem.call(self, func, args, depth)
+        for (b, n) in list(self.fw):
+            if irsem.STACK_BASE <= b < irsem.STACK_BASE + 0x8000 and b + n > self.stack_top:
+                del self.fw[(b, n)]
+        return r
 
 
 class WasmHarness(Harness):
